@@ -205,10 +205,39 @@ class Cursor:
             self.pos[r] += 1
         return res
 
+    def block(self, begin, end):
+        """the lines between the next `begin` and `end` markers, per rank"""
+        res = []
+        for r in range(self.R):
+            L = self.lines[r]
+            while self.pos[r] < len(L) and L[self.pos[r]] != begin:
+                self.pos[r] += 1
+            if self.pos[r] >= len(L):
+                return None
+            self.pos[r] += 1
+            blk = []
+            while self.pos[r] < len(L) and L[self.pos[r]] != end:
+                blk.append(L[self.pos[r]])
+                self.pos[r] += 1
+            if self.pos[r] >= len(L):
+                return None
+            self.pos[r] += 1
+            res.append(blk)
+        return res
+
+
+def fmt_obs(blocks):
+    """what every rank saw during a rebalance / global_shuffle: its vector after each message it executed"""
+    per = []
+    for blk in blocks:
+        snaps = [l.split()[1:] for l in blk if l.startswith("snap")]
+        per.append(";".join(",".join(sn) for sn in snaps) if snaps else "-")
+    return "/".join(per)
+
 
 def analyse_bag(case, sr):
-    """walk the script along the real outputs.  Returns (oracle failures, model tokens, real dump strings in model order,
-    list of (token index, rebalance position) for the ords search)"""
+    """walk the script along the real outputs.  Returns (oracle failures, model tokens, real outputs in model order).
+    A token ("R", obs) is a rebalance whose to_send iteration orders are still to be chosen."""
     R = case["ranks"]
     cid = cid_of(case)
     of = []
@@ -224,11 +253,9 @@ def analyse_bag(case, sr):
     def fail(what, sig, **kw):
         of.append({"what": what, "signature": sig, "case": dict(cid, **kw)})
 
-    k = 0
-    while k < len(script):
-        f = script[k].split()
+    for k, op in enumerate(script):
+        f = op.split()
         c = f[0]
-        k += 1
         if c == "i":
             pending[cur].append(int(f[2])); toks.append(f"i:{f[1]}:{f[2]}")
         elif c == "t":
@@ -238,29 +265,30 @@ def analyse_bag(case, sr):
             pending[cur] += xs; toks.append(f"v:{f[1]}:{f[2]}:{f[3]}")
         elif c == "T":
             cur = int(f[1]); toks.append(f"T:{cur}")
-        elif c in ("B", "R", "L", "G", "S", "c"):
-            # state-changing collective: its parameters come from the dump that follows
-            if c == "B":
-                expected[cur] += pending[cur]; pending[cur] = []
-                # a barrier executes the pending inserts of BOTH bags; the generator never leaves inserts pending on the other bag
-                toks.append(("B", None))
-            elif c == "R":
-                toks.append(("R", None)); after = ("R", len(expected[cur]))
-            elif c == "L":
-                toks.append(("L", None)); after = ("L", prev_dump[cur])
-            elif c == "G":
-                gd = cu.take("gdest")
-                if gd is None:
-                    fail("no gdest line", "bag-output-missing"); return of, None, None
-                toks.append(("G", ("/".join(",".join(g) if g else "-" for g in gd), prev_dump[cur])))
-                if any(int(d) < 0 or int(d) >= R for g in gd for d in g):
-                    fail("global_shuffle drew a rank outside the communicator", "bag-shuffle-dest-range", gdest=gd)
-            elif c == "S":
-                expected[0], expected[1] = expected[1], expected[0]
-                prev_dump[0], prev_dump[1] = prev_dump[1], prev_dump[0]
-                toks.append("S")
-            elif c == "c":
-                expected[cur] = []; toks.append("c")
+        elif c == "B":
+            expected[cur] += pending[cur]; pending[cur] = []
+            toks.append(("B",))          # execution order of the pending inserts: read off the dump that follows
+        elif c == "R":
+            blk = cu.block("rebalance-begin", "rebalance-end")
+            if blk is None:
+                fail("rebalance markers missing", "bag-output-missing"); return of, None, None
+            toks.append(("R", fmt_obs(blk))); after = ("R", len(expected[cur]))
+        elif c == "L":
+            toks.append(("L",)); after = ("L", prev_dump[cur])
+        elif c == "G":
+            blk = cu.block("gshuffle-begin", "gshuffle-end")
+            if blk is None:
+                fail("global_shuffle markers missing", "bag-output-missing"); return of, None, None
+            gd = [next((l.split()[1:] for l in b if l.startswith("gdest")), []) for b in blk]
+            if any(int(d) < 0 or int(d) >= R for g in gd for d in g):
+                fail("global_shuffle drew a rank outside the communicator", "bag-shuffle-dest-range", gdest=gd)
+            toks.append("G:" + "/".join(",".join(g) if g else "-" for g in gd) + ":" + fmt_obs(blk))
+        elif c == "S":
+            expected[0], expected[1] = expected[1], expected[0]
+            prev_dump[0], prev_dump[1] = prev_dump[1], prev_dump[0]
+            toks.append("S")
+        elif c == "c":
+            expected[cur] = []; toks.append("c")
         elif c == "D":
             bag = cu.take("bag")
             ls = cu.take("lsize")
@@ -283,25 +311,16 @@ def analyse_bag(case, sr):
                     fail("local_shuffle changed what a rank holds", "bag-local-shuffle-moved", before=after[1], vectors=vec)
             after = None
             prev_dump[cur] = vec
-            # resolve the parameters of the operation this dump follows
+            # parameters of the operations this dump follows
             for j in range(len(toks) - 1, -1, -1):
-                if isinstance(toks[j], tuple):
-                    kind, arg = toks[j]
-                    if kind == "B":
+                t = toks[j]
+                if isinstance(t, tuple):
+                    if t[0] == "B":
                         toks[j] = "B:@" + fmt_bags(vec)
-                    elif kind == "R":
-                        toks[j] = ("Rres", fmt_bags(vec))        # ords decided later
-                    elif kind == "L":
+                    elif t[0] == "L":
                         toks[j] = " ".join(f"L:{r}:" + (",".join(map(str, vec[r])) or "-") for r in range(R))
-                    elif kind == "G":
-                        # destinations: as drawn (harness replays the generator) / as observed (where each item ended up:
-                        # an item that reaches a rank still inside global_shuffle's barrier is swapped out and sent again)
-                        pre = arg[1] or [[] for _ in range(R)]
-                        where = {x: r for r in range(R) for x in vec[r]}
-                        derived = "/".join(",".join(str(where.get(x, 0)) for x in pre[r]) if pre[r] else "-" for r in range(R))
-                        toks[j] = ("Gres", arg[0], derived, fmt_bags(vec))
                     continue
-                if toks[j] in ("D",) or toks[j].startswith(("g:", "a:")):
+                if t == "D" or t.startswith(("g:", "a:")):
                     break
             toks.append("D"); real.append("|".join(" ".join(map(str, v)) for v in vec))
         elif c == "g":
@@ -331,21 +350,19 @@ def analyse_bag(case, sr):
                 fail("size output missing", "bag-output-missing"); return of, None, None
             if any(int(x[0]) != len(expected[cur]) for x in z):
                 fail(f"size() = {[x[0] for x in z]} but {len(expected[cur])} items were inserted", "bag-size", got=z)
-    # unresolved tuple tokens (operation not followed by a dump) cannot be compared
-    toks = [t for t in toks if not (isinstance(t, tuple) and t[0] not in ("Rres", "Gres"))]
+    # a barrier / local_shuffle not followed by a dump keeps default parameters
+    toks = ["B:-" if (isinstance(t, tuple) and t[0] == "B") else t for t in toks]
+    toks = [t for t in toks if not (isinstance(t, tuple) and t[0] == "L")]
     return of, toks, real
 
 
-def model_lines_bag(case, toks, ords_choice, gmode="drawn"):
-    """ords_choice: list (one entry per rebalance) of 'desc' | 'asc' | explicit 'a,b/c/-' string;
-    gmode: global_shuffle destinations as 'drawn' (replayed generator) or 'observed' (where the items ended up)"""
+def model_lines_bag(case, toks, ords_choice):
+    """ords_choice: per rebalance 'desc' | 'asc' | explicit lists 'a,b/c/-' (iteration order of every rank's to_send)"""
     out, k = [], 0
     for t in toks:
-        if isinstance(t, tuple) and t[0] == "Rres":
-            out.append(f"R:{ords_choice[k]}:@{t[1]}")
+        if isinstance(t, tuple) and t[0] == "R":
+            out.append(f"R:{ords_choice[k]}:{t[1]}")
             k += 1
-        elif isinstance(t, tuple) and t[0] == "Gres":
-            out.append(f"G:{t[1] if gmode == 'drawn' else t[2]}:@{t[3]}")
         elif isinstance(t, tuple):
             out.append(t[0])      # 'K'
         else:
@@ -526,23 +543,20 @@ def evaluate_bag(case, sr, model_ok=True):
     of, toks, real = analyse_bag(case, sr)
     if toks is None or not model_ok:
         return of, cf, notes
-    nreb = sum(1 for t in toks if isinstance(t, tuple) and t[0] == "Rres")
-    ngs = sum(1 for t in toks if isinstance(t, tuple) and t[0] == "Gres")
+    nreb = sum(1 for t in toks if isinstance(t, tuple) and t[0] == "R")
+    if any(early_arrival(t[1]) for t in toks if isinstance(t, tuple) and t[0] == "R"):
+        notes.append("rebalance:arrival-before-pop-observed")
+    if any(early_arrival(t.split(":")[2]) for t in toks if isinstance(t, str) and t.startswith("G:")):
+        notes.append("gshuffle:arrival-before-swap-out-observed")
     mo, bad = None, 0
-    # parameters the code leaves open, tried in order: destinations of global_shuffle as drawn / as observed,
-    # iteration order of to_send descending (libstdc++ for few keys) / ascending / searched
-    for gmode in (["drawn", "observed"] if ngs else ["drawn"]):
-        for ords in (["desc"] * nreb, ["asc"] * nreb) if nreb else ([],):
-            mo = C.model("bag", [model_lines_bag(case, toks, ords, gmode)])[0]
-            bad = compare_bag(case, toks, real, mo)
-            if bad is None:
-                break
+    # iteration order of to_send: descending (libstdc++ for few keys), ascending, then searched
+    for ords in ((["desc"] * nreb, ["asc"] * nreb) if nreb else ([],)):
+        mo = C.model("bag", [model_lines_bag(case, toks, ords)])[0]
+        bad = compare_bag(case, toks, real, mo)
         if bad is None:
-            if gmode == "observed":
-                notes.append("gshuffle:destinations-observed")
             break
     if bad is not None and nreb:
-        ords, mo, bad = search_ords(case, toks, real, nreb, "observed" if ngs else "drawn")
+        ords, mo, bad = search_ords(case, toks, real, nreb)
         if bad is None:
             notes.append("rebalance:to_send-order-searched")
     if bad is not None:
@@ -553,19 +567,29 @@ def evaluate_bag(case, sr, model_ok=True):
     return of, cf, notes
 
 
-def search_ords(case, toks, real, nreb, gmode, budget=300):
+def early_arrival(obs):
+    """did some rank see a message before it had finished popping (its vector shrank afterwards)?"""
+    for per in obs.split("/"):
+        snaps = [] if per == "-" else [x.split(",") for x in per.split(";")]
+        for a, b in zip(snaps, snaps[1:]):
+            if b[:len(a)] != a:
+                return True
+    return False
+
+
+def search_ords(case, toks, real, nreb, budget=300):
     """try explicit iteration orders for the to_send maps, one rebalance after the other"""
     choice = ["desc"] * nreb
     R = case["ranks"]
     for k in range(nreb):
         ktoks, seen = [], 0
         for t in toks:
-            if isinstance(t, tuple) and t[0] == "Rres":
+            if isinstance(t, tuple) and t[0] == "R":
                 if seen == k:
                     ktoks.append(("K",))
                 seen += 1
             ktoks.append(t)
-        ans = C.model("bag", [model_lines_bag(case, ktoks, choice, gmode)])[0].split(" # ")
+        ans = C.model("bag", [model_lines_bag(case, ktoks, choice)])[0].split(" # ")
         kline = next((a for a in ans if "=" in a), None)
         if kline is None:
             continue
@@ -578,7 +602,7 @@ def search_ords(case, toks, real, nreb, gmode, budget=300):
             if tried > budget:
                 break
             choice[k] = "/".join(",".join(p) if p else "-" for p in combo)
-            mo = C.model("bag", [model_lines_bag(case, toks, choice, gmode)])[0]
+            mo = C.model("bag", [model_lines_bag(case, toks, choice)])[0]
             bad = compare_bag(case, toks, real, mo)
             if bad is None:
                 return choice, mo, None
@@ -586,7 +610,7 @@ def search_ords(case, toks, real, nreb, gmode, budget=300):
                 best = (bad, choice[k])
         if best:
             choice[k] = best[1]
-    mo = C.model("bag", [model_lines_bag(case, toks, choice, gmode)])[0]
+    mo = C.model("bag", [model_lines_bag(case, toks, choice)])[0]
     return choice, mo, compare_bag(case, toks, real, mo)
 
 
